@@ -9,7 +9,6 @@ import (
 
 	"github.com/lindb/lindb/pkg/timeutil"
 	"github.com/lindb/lindb/tsdb"
-	"github.com/lindb/lindb/verif/internal/seam"
 )
 
 // Failed-job part ("A source file contributes to a given target exactly once, also when the rollup is triggered
@@ -35,22 +34,64 @@ import (
 // target must show exactly what it showed before: no partial output) - that is the only thing the fault changes in the
 // expectation (the "forced job leaves its marks" check is waived for the faulted target of that one step).
 
-var faultKinds = []string{"create", "write-in-merge", "write-footer", "close"}
+// Manifest kinds (one manifest record write of the version set fails; the write is NOT executed, the manifest file stays
+// as it was, later commits and the reopen work). The kv/version seam wraps a manifest writer when its store is opened,
+// so fault histories keep a switchable interceptor (faultSwitch) installed from before the first open to their end:
+//
+//	target-manifest     the commit of the job's results (new table + reference files) in the target family
+//	                    (stack inside doRollupWork): nothing is installed, the job has failed, the marks must stay
+//	source-manifest     the source family's commit of the DeleteRollupFile records after the target work (stack inside
+//	                    (*family).rollup, outside doRollupWork / cleanReferenceFiles): the data IS in the targets, the
+//	                    marks stay; the targets' reference files must stay too (they stand for the missing mark removal),
+//	                    so that the retry skips the files instead of adding them a second time
+//	reference-manifest  the target's commit of cleanReferenceFiles: marks gone, data in, a stale reference is harmless
+var faultKinds = []string{"create", "write-in-merge", "write-footer", "close", "target-manifest", "source-manifest", "reference-manifest"}
 
-const (
-	ctxFault      = "failed-rollup-job"
-	ctxFaultRetry = "retry-after-failed-rollup-job"
-)
+func faultCtx(kind string) string {
+	switch kind {
+	case "target-manifest":
+		return "failed-target-commit-of-rollup-job"
+	case "source-manifest":
+		return "failed-source-commit-of-rollup-marks"
+	case "reference-manifest":
+		return "failed-reference-cleanup-commit-of-rollup-job"
+	}
+	return "failed-rollup-job"
+}
 
-// faultState is what rollupStepFull needs to know about the fault of the current step.
-type faultState struct {
-	iv   int64 // target interval whose output table gets the failing step
-	kind string
+// faultSwitch is the interceptor a fault history installs before its engine is opened; it forwards to the gate of the
+// current faultrollup step (if any).
+type faultSwitch struct {
+	mu   sync.Mutex
 	gate *faultGate
 }
 
+func (s *faultSwitch) set(g *faultGate) {
+	s.mu.Lock()
+	s.gate = g
+	s.mu.Unlock()
+}
+
+func (s *faultSwitch) Do(label string, op func() error) error {
+	s.mu.Lock()
+	g := s.gate
+	s.mu.Unlock()
+	if g == nil {
+		return op()
+	}
+	return g.Do(label, op)
+}
+
+// faultState is what rollupStepFull needs to know about the fault of the current step.
+type faultState struct {
+	iv     int64 // target interval whose output table gets the failing step
+	kind   string
+	gate   *faultGate
+	judged bool // rollupStepFull has seen the outcome of the failed job (marks kept or removed)
+}
+
 func (f *faultState) injectedInto(iv int64) bool {
-	if f == nil || f.iv != iv {
+	if f == nil || (f.iv != iv && f.kind != "source-manifest") {
 		return false
 	}
 	f.gate.mu.Lock()
@@ -62,6 +103,7 @@ func (f *faultState) injectedInto(iv int64) bool {
 type faultGate struct {
 	mu       sync.Mutex
 	prefix   string // directory of the segments of the chosen target interval
+	srcDir   string // directory of the segments of the source interval
 	kind     string
 	injected int
 	label    string
@@ -75,6 +117,9 @@ func (g *faultGate) Do(label string, op func() error) error {
 		return op()
 	}
 	verb, path := label[:k], label[k+1:]
+	if strings.HasSuffix(g.kind, "-manifest") {
+		return g.doManifest(label, verb, path, op)
+	}
 	if !strings.HasSuffix(path, ".sst") || !strings.HasPrefix(path, g.prefix) {
 		return op()
 	}
@@ -116,6 +161,44 @@ func (g *faultGate) Do(label string, op func() error) error {
 	return fmt.Errorf("verif: injected i/o error at %q", verb+" "+filepath.Base(path))
 }
 
+// doManifest fails one manifest record write of a rollup job's commit; which commit is read from the caller's stack.
+func (g *faultGate) doManifest(label, verb, path string, op func() error) error {
+	if verb != "write" || !strings.HasPrefix(filepath.Base(path), "MANIFEST-") {
+		return op()
+	}
+	buf := make([]byte, 1<<16)
+	st := string(buf[:runtime.Stack(buf, false)])
+	inWork := strings.Contains(st, "kv.(*family).doRollupWork")
+	inClean := strings.Contains(st, "kv.(*family).cleanReferenceFiles")
+	inRollup := strings.Contains(st, "kv.(*family).rollup")
+	hit := false
+	switch g.kind {
+	case "target-manifest":
+		hit = inWork && strings.HasPrefix(path, g.prefix)
+	case "reference-manifest":
+		hit = inClean && strings.HasPrefix(path, g.prefix)
+	case "source-manifest":
+		hit = inRollup && !inWork && !inClean && strings.HasPrefix(path, g.srcDir)
+	}
+	g.mu.Lock()
+	if inRollup || inWork || inClean {
+		g.tableOps++
+	} else {
+		g.notInJob++
+	}
+	if hit && g.injected == 0 {
+		g.injected++
+		g.label = label
+	} else {
+		hit = false
+	}
+	g.mu.Unlock()
+	if !hit {
+		return op()
+	}
+	return fmt.Errorf("verif: injected i/o error at %q (nothing written)", verb+" "+filepath.Base(path))
+}
+
 // parseFault splits "month/create" (the part behind "faultrollup:").
 func parseFault(arg string) (typ, kind string) {
 	if k := strings.IndexByte(arg, '/'); k >= 0 {
@@ -134,6 +217,16 @@ func (h *hist) faultStep(arg string) {
 				pending[f.Fam] = true
 			}
 		}
+	}
+	for i, b := range h.books() {
+		if len(b.Marks) > 0 { // marks left by a failed source commit
+			pending[i] = true
+		}
+	}
+	if len(pending) == 0 {
+		// the previous failed job left nothing to do (e.g. only its reference cleanup failed): no job would run
+		res.count("fault.steps_skipped_because_nothing_is_waiting_for_rollup", 1)
+		return
 	}
 	if len(pending) != 1 {
 		res.Fatal = fmt.Sprintf("faultrollup step needs exactly one source family with rollup marks, have %d", len(pending))
@@ -166,21 +259,23 @@ func (h *hist) faultStep(arg string) {
 			}
 		}
 	}
-	g := &faultGate{kind: kind, prefix: tsdb.ShardIntervalSegmentPath(dbName, shardID, timeutil.Interval(iv)) + string(filepath.Separator)}
+	g := &faultGate{kind: kind, prefix: tsdb.ShardIntervalSegmentPath(dbName, shardID, timeutil.Interval(iv)) + string(filepath.Separator),
+		srcDir: tsdb.ShardIntervalSegmentPath(dbName, shardID, timeutil.Interval(h.spec.Src)) + string(filepath.Separator)}
 	h.fault = &faultState{iv: iv, kind: kind, gate: g}
 	defer func() { h.fault = nil }()
-	retryOfFailed := h.faultPending[iv]
+	retryOfFailed := h.faultPending[iv] != ""
 	hadData := false
 	for _, f := range h.files {
 		if f.Status[iv] == stIn {
 			hadData = true
 		}
 	}
-	seam.InstallKV(g, nil)
-	// the gate stays installed until the step has been judged: it only ever touches one operation of a goroutine that
-	// is inside doRollupWork, reading the targets never gets there
-	h.rollupStepFull(trigForce, ctxFault, nil, nil)
-	seam.Restore()
+	// the gate stays armed until the step has been judged: it only ever touches one operation of a goroutine that
+	// is inside the rollup job, reading the targets never gets there
+	h.faultSwitch.set(g)
+	h.rollupStepFull(trigForce, faultCtx(kind), nil, nil)
+	h.faultSwitch.set(nil)
+	judged := h.fault.judged
 	g.mu.Lock()
 	injected, label, ops, outside := g.injected, g.label, g.tableOps, g.notInJob
 	g.mu.Unlock()
@@ -194,6 +289,9 @@ func (h *hist) faultStep(arg string) {
 	res.count("fault.failing_steps_injected_into_a_rollup_job", injected)
 	res.count("fault.failing_steps_injected.kind."+kind, injected)
 	res.count("fault.failing_steps_injected.target."+typ, injected)
+	if judged {
+		res.count("fault.failed_jobs_judged.kind."+kind, 1)
+	}
 	if hadData {
 		res.count("fault.failing_steps_injected_into_a_job_whose_target_already_holds_data", 1)
 	}
@@ -203,18 +301,33 @@ func (h *hist) faultStep(arg string) {
 	if h.spec.Files != nil && len(h.spec.Files) < 400 {
 		h.spec.Files = append(h.spec.Files, fmt.Sprintf("step %d: injected failure of %q", h.stepNo, strings.TrimPrefix(label, h.env.dataDir)))
 	}
-	still := 0
+	if h.faultPending == nil {
+		h.faultPending = map[int64]string{}
+	}
+	for _, t := range h.m.targets {
+		if h.workLeft(t) && (t == iv || kind == "source-manifest") {
+			h.faultPending[t] = faultCtx(kind)
+		}
+	}
+}
+
+// workLeft: a file is still pending for the target interval or a source family still carries a rollup mark for it.
+func (h *hist) workLeft(iv int64) bool {
 	for _, f := range h.files {
 		if f.Status[iv] == stPending {
-			still++
+			return true
 		}
 	}
-	if still > 0 {
-		if h.faultPending == nil {
-			h.faultPending = map[int64]bool{}
+	for _, b := range h.books() {
+		for _, ivs := range b.Marks {
+			for _, x := range ivs {
+				if x == iv {
+					return true
+				}
+			}
 		}
-		h.faultPending[iv] = true
 	}
+	return false
 }
 
 // faultRetryCtx names the context of an ordinary rollup step that repeats the work of a failed job ("" = it does not).
@@ -222,27 +335,39 @@ func (h *hist) faultRetryCtx() string {
 	if len(h.faultPending) == 0 {
 		return ""
 	}
-	if h.prevOp == "reopen" {
-		return ctxFaultRetry + "-and-reopen"
+	ctx := ""
+	for _, t := range h.m.targets {
+		if c := h.faultPending[t]; c != "" && ctx == "" {
+			ctx = "retry-after-" + c
+		}
 	}
-	return ctxFaultRetry
+	if h.prevOp == "reopen" {
+		ctx += "-and-reopen"
+	}
+	return ctx
 }
 
 // afterFaultRetry is called behind a plain forced rollup step: which failed jobs have been made up for?
 func (h *hist) afterFaultRetry(ctx string) {
-	for iv := range h.faultPending {
-		left := 0
-		for _, f := range h.files {
-			if f.Status[iv] == stPending {
-				left++
-			}
-		}
-		if left == 0 && !h.tainted[iv] {
+	for iv, failed := range h.faultPending {
+		if !h.workLeft(iv) && !h.tainted[iv] {
 			delete(h.faultPending, iv)
 			h.res.count("fault.retries_that_completed_the_work_of_a_failed_job."+typeOf(iv), 1)
+			h.res.count("fault.retries_completed.after-"+failed, 1)
 			if strings.HasSuffix(ctx, "-and-reopen") {
 				h.res.count("fault.retries_after_a_reopen_that_completed_the_work_of_a_failed_job", 1)
 			}
 		}
 	}
+}
+
+// faultStage: where in the job the failing step sits (part of the class).
+func faultStage(kind string) string {
+	if kind == "target-manifest" {
+		return "target-commit"
+	}
+	if kind == "source-manifest" {
+		return "source-commit"
+	}
+	return "output-table"
 }
